@@ -80,18 +80,21 @@ class CMAESDesigner(vza.PartiallySerializableDesigner):
     completed_trials = list(completed.trials)
 
     # Keep inserting completed trials into population. If population is full,
-    # a CMA-ES update and queue clear are triggered.
+    # a CMA-ES update and queue clear are triggered. The queue holds
+    # (features, label) rows rather than trials, so that a partially evaluated
+    # population can be dumped and loaded.
     while completed_trials:
-      self._trial_population.put(completed_trials.pop())
+      features, labels = self._converter.to_xy([completed_trials.pop()])
+      self._trial_population.put((features[0], labels[0, 0]))
 
       if self._trial_population.full():
-        # Once full, make a full CMA-ES update.
-        features, labels = self._converter.to_xy(
-            list(self._trial_population.queue))
-        # CMA-ES expects fitness to be shape (pop_size,) and solutions of shape
-        # (pop_size, num_params).
+        # Once full, make a full CMA-ES update. CMA-ES expects fitness to be
+        # shape (pop_size,) and solutions of shape (pop_size, num_params).
+        queued = list(self._trial_population.queue)
         self._cma_es_jax.tell(
-            fitness=jnp.array(labels[:, 0]), solutions=jnp.array(features))
+            fitness=jnp.array(np.array([label for _, label in queued])),
+            solutions=jnp.array(np.array([row for row, _ in queued])),
+        )
         self._trial_population.queue.clear()
 
   def suggest(self,
@@ -118,10 +121,30 @@ class CMAESDesigner(vza.PartiallySerializableDesigner):
     cma_state = json.loads(
         metadata.ns('cma')['state'], object_hook=json_utils.numpy_hook)
     self._cma_es_jax.load_state(cma_state)
+    # Trials of the population that was only partially evaluated at dump time.
+    # Dumps written before this was stored do not carry it.
+    self._trial_population.queue.clear()
+    queued = metadata.ns('cma').get('queued_trials', default=None)
+    if queued is not None:
+      queued = json.loads(queued, object_hook=json_utils.numpy_hook)
+      for row, label in zip(queued['features'], queued['labels']):
+        self._trial_population.put((row, label))
 
   def dump(self) -> vz.Metadata:
     cma_state = self._cma_es_jax.save_state()
     metadata = vz.Metadata()
     metadata.ns('cma')['state'] = json.dumps(
         cma_state, cls=json_utils.NumpyEncoder)
+    queued = list(self._trial_population.queue)
+    metadata.ns('cma')['queued_trials'] = json.dumps(
+        {
+            'features': np.array(
+                [row for row, _ in queued], dtype=np.float64
+            ).reshape([len(queued), self._num_params]),
+            'labels': np.array(
+                [label for _, label in queued], dtype=np.float64
+            ),
+        },
+        cls=json_utils.NumpyEncoder,
+    )
     return metadata
